@@ -49,6 +49,7 @@ import sys
 import threading
 import time
 import traceback
+import warnings
 
 from . import common
 from . import c03_gen as gen
@@ -109,6 +110,7 @@ def _init_worker():
     from .tables import ensure_tables
 
     ensure_tables(completion=False)
+    warnings.filterwarnings("ignore", category=SyntaxWarning)  # literal evaluation of inputs like '\\-' inside xonsh
     d = common.scratch_dir("c03")
     os.chdir(d)
     with open(os.path.join(d, "g"), "w") as f:
